@@ -32,10 +32,16 @@ def cases(tier):
         for dims in itertools.product([2, 3] if (q or d > 2) else [2, 3, 4], repeat=d):
             if d == 4 and np.prod(dims) > 36:
                 continue
-            for c in (False, True):
+            # 'gtail': real operator, guess with complex entries from its second core on; 'optail': real-valued operator whose
+            # cores carry a complex dtype from the second core on (mixed dtypes inside one train)
+            for c in (False, True, 'gtail', 'optail'):
+                if c in ('gtail', 'optail') and d == 1:
+                    continue
                 for g in (False, True):
                     for rg in admissible_ranks(list(dims)):
                         for solver in ('eig', 'eigh', 'eigs'):
+                            if c in ('gtail', 'optail') and solver == 'eigs':
+                                continue
                             yield {'dims': list(dims), 'c': c, 'gevp': g, 'rg': rg, 'solver': solver}
 
 
@@ -90,9 +96,10 @@ def run_case(case, seed):
     _install()
     r = R(case)
     rng = rng_for(case, seed)
-    dims, c, g, rg, solver = case['dims'], case['c'], case['gevp'], case['rg'], case['solver']
+    dims, cc, g, rg, solver = case['dims'], case['c'], case['gevp'], case['rg'], case['solver']
+    c = cc is True
     d = len(dims); n = int(np.prod(dims))
-    r.nontrivial = c or g or max(rg) > 1
+    r.nontrivial = bool(cc) or g or max(rg) > 1
 
     def rnd(shape):
         a = rng.standard_normal(shape)
@@ -118,10 +125,14 @@ def run_case(case, seed):
     A = L @ C @ L.conj().T
     A = (A + A.conj().T) / 2
     Aop = TT(A.reshape(dims + dims))
+    if cc == 'optail':
+        Aop = TT([x_ if i_ == 0 else x_.astype(complex) for i_, x_ in enumerate(Aop.cores)])
+        if Bop is not None:
+            Bop = TT([x_ if i_ == 0 else x_.astype(complex) for i_, x_ in enumerate(Bop.cores)])
     evals, evecs = sl.eigh(A, Bm)          # ascending; generalised eigenvectors B-orthonormal
     lmax = evals[-1]
     vdom = evecs[:, -1]
-    guess = tt_from(rand_cores(rng, dims, [1] * d, rg, c)); guess.ortho_right()
+    guess = tt_from(rand_cores(rng, dims, [1] * d, rg, 'tail' if cc == 'gtail' else c)); guess.ortho_right()
     sA, sG = snap(Aop), snap(guess)
     sB = snap(Bop) if g else None
     micro_dims = [rg[i] * dims[i] * rg[i + 1] for i in range(d)]
